@@ -84,7 +84,18 @@ func evalCommand(line string) (string, string) {
 	case "cmd.join":
 		x := command.Command(unhx(f[1]))
 		l := unhxList(f[2])
-		return hxs(string(x.Join(l...))), q(string(x)) + ".Join(" + strings.Join(l, ",") + ")"
+		// the caller's slice (with spare capacity, as after an append) is the caller's: Join leaves it alone
+		mine := append(make([]string, 0, len(l)+4), l...)
+		res := hxs(string(x.Join(mine...)))
+		for i := range l {
+			if mine[i] != l[i] {
+				return "history: Join rewrote the segment slice it was given (" + strings.Join(mine, ",") + ")", q(string(x)) + ".Join(" + strings.Join(l, ",") + ")"
+			}
+		}
+		if again := hxs(string(x.Join(mine...))); again != res {
+			return "history: the same Join gives " + res + " then " + again, q(string(x)) + ".Join(" + strings.Join(l, ",") + ")"
+		}
+		return res, q(string(x)) + ".Join(" + strings.Join(l, ",") + ")"
 	case "go.cmd.history":
 		return cmdHistory(), line
 	}
